@@ -309,15 +309,18 @@ fn summary_case<F: Fl>(rng: &mut Rng, acc: &mut Acc, prop: &str) {
             acc.count("data_rescaled_by_power_of_ten");
         }
         // (b) a late observation far from the rest whose weight is below half an ulp of the running total: it does
-        //     not change the total, but its contribution to the sum of squares is far from negligible
-        if rng.chance(0.12) {
+        //     not change the total, but its contribution to the sum of squares is far from negligible (never combined
+        //     with (a): the squared deviations must stay inside the exponent range)
+        else if rng.chance(0.14) {
             let u = if F::IS32 { 2f64.powi(-24) } else { 2f64.powi(-53) };
             let spread = F::of(*rng.pick(&[1.0e4, 3.0e3, 1.0e5]));
+            let mut moved = usize::MAX;
             if n >= 3 {
                 let j = n - 1 - rng.below(n / 2);
                 let tot = wfull.iter().fold(F::of(0.0), |a, &b| a + b);
                 wfull[j] = tot * F::of(u * 0.3);
                 data[j] = data[j] + spread * (F::of(1.0) + data[j].abs());
+                moved = j;
             }
             let m = shape[axis];
             if m >= 3 {
@@ -327,7 +330,9 @@ fn summary_case<F: Fl>(rng: &mut Rng, acc: &mut Acc, prop: &str) {
                 // every lane's j-th observation moves far away
                 for l in lanes_of(&shape, axis) {
                     let i = l[j];
-                    data[i] = data[i] + spread * (F::of(1.0) + data[i].abs());
+                    if i != moved {
+                        data[i] = data[i] + spread * (F::of(1.0) + data[i].abs());
+                    }
                 }
             }
             acc.count("tiny_weight_on_a_far_observation");
